@@ -882,7 +882,14 @@ func (h *regHarness) exec(line string) string {
 		h.reopenCalls = nil
 		h.failInst = fail
 		h.mu.Unlock()
-		err := h.b.Reopen(ctx)
+		rctx := ctx
+		if h.st.Ops%2 == 0 {
+			// every other Reopen is given a context that is already done: it reaches every node all the same
+			c2, cancel := context.WithCancel(ctx)
+			cancel()
+			rctx = c2
+		}
+		err := h.b.Reopen(rctx)
 		h.mu.Lock()
 		calls := append([]int(nil), h.reopenCalls...)
 		h.failInst = 0
